@@ -30,6 +30,7 @@ type opGen struct {
 	seenV []int32
 	seen  []mm
 	gen   bool // allow generated ids
+	include bool // allow include-filtered subscriptions
 }
 
 func (g *opGen) fresh() int32 {
@@ -124,6 +125,8 @@ func (g *opGen) subCfg(allowPullID bool) subCfg {
 	}
 	if g.coll && allowPullID && t.Flag(1, 4) {
 		c.UsePullID, c.PullID = true, g.pickID()
+	} else if g.coll && g.include && t.Flag(1, 4) {
+		c.Include = &inclTable{arith: true}
 	}
 	return c
 }
